@@ -116,9 +116,11 @@ int main(void) {
 	want_num = 1;
 	token *c1 = new_call();
 #if KIND == 1
-	if (IN.locator) { token *loc = token_new(PAIR_BRACKET, 0, 3); token_append_child(loc, token_new(BRACKET_LEFT, 0, 1)); token_append_child(loc, token_new(TEXT_PLAIN, 1, 1)); token_append_child(loc, token_new(BRACKET_RIGHT, 2, 1)); loc->next = c1; c1->prev = loc; loc->type = PAIR_BRACKET; token *save = loc; 
-		/* html.c enters the citation code for the locator through `parse_citation` with t = locator; emulate by exporting the locator token typed as citation start */
-		loc->type = PAIR_BRACKET_CITATION; c1 = save; }
+	if (IN.locator) {      /* `[p. 1][#key]`: a plain bracket pair (the locator) immediately followed by the citation; html.c enters the citation code through PAIR_BRACKET */
+		token *loc = token_new(PAIR_BRACKET, 0, 3);
+		token_append_child(loc, token_new(BRACKET_LEFT, 0, 1)); token_append_child(loc, token_new(TEXT_PLAIN, 1, 1)); token_append_child(loc, token_new(BRACKET_RIGHT, 2, 1));
+		loc->next = c1; c1->prev = loc; c1 = loc;
+	}
 #endif
 	mmd_export_token_html(out, src, c1, sp);
 	/* 2. a second call: first use of note 2, or re-use of note 1 */
